@@ -704,8 +704,8 @@ impl Engine for SinkSim {
         let plan = gen_plan(rng, 40, 3000, true);
         let mut queries = Vec::new();
         if gen == Gen::Bash {
-            for _ in 0..rng.urange(2, 8) {
-                let depth = rng.usize(3);
+            for _ in 0..rng.urange(4, 12) {
+                let depth = *rng.pick(&[0usize, 1, 1, 2, 2, 2]);
                 queries.push(BashQuery {
                     path: (0..depth).map(|_| (rng.below(8) as u8, rng.below(4) as u8)).collect(),
                     pick: rng.below(64) as u16,
